@@ -26,7 +26,7 @@ SCENARIOS = ['ctor', 'transfer:c2c', 'transfer:slice2c', 'transfer:plate2c', 're
              'create_solution:pure', 'create_solution:container', 'create_solution_from:pure',
              'create_solution_from:container', 'plate:c2slice', 'plate:c2plate', 'plate:slice2slice', 'plate:well2slice',
              'plate:slice2well', 'plate:same', 'plate:remove', 'plate:fill_to', 'slice:remove', 'slice:fill_to',
-             'plate:observers', 'recipe:transfer+fill', 'recipe:solution+from', 'recipe:plate']
+             'plate:observers', 'recipe:transfer+fill', 'recipe:solution+from', 'recipe:plate', 'recipe:dest-slice']
 
 
 def cells(tier, seed):
@@ -215,7 +215,19 @@ def h_scenario(h):
             B = W.add('declared B', mk_container(h, lib, 'B', ['water'], cap=cap, lo=1, hi=10**3))
             h.assume(h.le(B.volume, cap))
             rec = Recipe()
-            if sc == 'recipe:transfer+fill':
+            if sc == 'recipe:dest-slice':
+                # a destination slice the caller keeps; an earlier step changes the plate it points to
+                W.items = [it for it in W.items if it[0] not in ('declared A', 'declared B')]
+                A = W.add('declared A', mk_container(h, lib, 'A', ['water'], lo=100, hi=10**6))
+                P = W.add('declared plate', _mk_plate(h, lib, 'P', (1, 2), [], cap))
+                dsl = W.add('destination slice kept by the caller', P[1, 1])
+                ssl = W.add('source slice kept by the caller', P[1, 2])
+                rec.uses(A, P)
+                T = h.real('T', 0, 10**5)
+                rec.transfer(A, P, f"{q} uL")
+                rec.transfer(A, dsl, f"{T} uL")
+                rec.transfer(ssl, dsl, '0.5 uL')
+            elif sc == 'recipe:transfer+fill':
                 rec.uses(A, B)
                 W.check('after uses')
                 T = h.real('T', 1, 10**5)
